@@ -139,8 +139,11 @@ class Verdict:
             "wall_s": round(wall, 3),
             "violations": len(self.violations),
         }
-        os.makedirs(os.path.join(ROOT, "evidence"), exist_ok=True)
-        with open(os.path.join(ROOT, "evidence", "%s.json" % self.prop), "w") as f:
+        # runs against a scratch variant of the repository (selftest, seeded changes) must not overwrite the evidence of /repo
+        variant = os.environ.get("FX_REPO") not in (None, "", "/repo")
+        evdir = os.path.join(ROOT, "evidence-variant" if variant else "evidence")
+        os.makedirs(evdir, exist_ok=True)
+        with open(os.path.join(evdir, "%s.json" % self.prop), "w") as f:
             json.dump(ev, f, indent=1, default=str)
         print("%s %s: obligations=%d discharged=%d known=%d violations=%d inconclusive=%d broken=%d wall=%.1fs" % (
             self.prop, self.tier, self.obligations, self.discharged, len(self.known_hits), len(self.violations),
